@@ -130,6 +130,11 @@ pub enum Op {
     /// queries cannot mask state that a query refreshes (memoisation, lazy updates).
     SparseOutcomeQueries,
     QueryOutcome,
+    /// `Blind(true)`: from here on the owner's pushes and pops are executed without the harness
+    /// reading anything back from the chain (no snapshots, no invariants) until `Blind(false)`,
+    /// which observes everything at once. State that a *read* would have refreshed (lazy or
+    /// memoised fields) stays unobserved in between.
+    Blind(bool),
     BoardMake(MoveLike),
     FenProbe(String),
     RawProbe(Edit),
@@ -527,6 +532,7 @@ impl Op {
             Op::RebuildUci => "rebuild_uci".into(),
             Op::SparseOutcomeQueries => "sparse_outcome_queries".into(),
             Op::QueryOutcome => "query_outcome".into(),
+            Op::Blind(on) => format!("blind {}", *on as u8),
             Op::BoardMake(ml) => format!("board_make {}", ml.encode()),
             Op::FenProbe(s) => format!("fen_probe {}", hex(s)),
             Op::RawProbe(e) => format!("raw_probe {}", e.encode()),
@@ -577,6 +583,7 @@ impl Op {
             "rebuild_uci" => Op::RebuildUci,
             "sparse_outcome_queries" => Op::SparseOutcomeQueries,
             "query_outcome" => Op::QueryOutcome,
+            "blind" => Op::Blind(t.get(1)?.parse::<u8>().ok()? != 0),
             "board_make" => Op::BoardMake(MoveLike::decode(&t[1..])?.0),
             "fen_probe" => Op::FenProbe(unhex(t.get(1)?)?),
             "raw_probe" => Op::RawProbe(Edit::decode(&t[1..])?),
